@@ -26,6 +26,9 @@ pub struct Case {
     /// size and (as that layout has no shorter form) this NUL-terminated user name
     #[serde(default)]
     pub sslreq_320_user: Option<Vec<u8>>,
+    /// minor version in the ClientHello's record header (None = what rustls writes, 3.1)
+    #[serde(default)]
+    pub hello_record_minor: Option<u8>,
 }
 
 /// length of the 4.1-layout SSL request packet (generator only; the checks measure the real one)
@@ -88,7 +91,7 @@ impl Prop for C18 {
         "C18"
     }
     fn rule(&self) -> String {
-        "cases = configuration {TLS offered?, server asks for a client certificate?, client has a certificate?, TLS 1.2 / 1.3} x a C03-style conversation (lock-step or pipelined; 1 in 8 with one reply of 600-5000 small rows, i.e. 60-500 KB of TLS records) x a chunk schedule over the whole client stream. The client is a rustls ClientConnection embedded in the scripted transport: it writes the SSLRequest packet (4.1 layout, reserved bytes zero or random; one in eight in the pre-4.1 layout with a 16-bit mask and a user name, then half of the time followed by a pre-4.1 encrypted response) and the ClientHello back-to-back (as real clients do), later flights as rustls produces them (the ClientHello optionally enlarged to 4-16 KiB by a long ALPN list, as session tickets and post-quantum key shares do), the HandshakeResponse (sequence id 2) and the commands inside the TLS session. Schedule classes: cut k bytes into the SSLRequest; SSLRequest + first k bytes of the ClientHello in one read; everything in one read; 1-byte reads; exact SSLRequest; mixed. Enumerated: a 17 MB query answered by a 17 MB row inside the TLS session (thorough: also 2^24-2 and 2*(2^24-1)+5 bytes), lock-step and pipelined. Oracle: run_on = Ok; every server byte after the greeting parses as TLS records and is accepted by rustls; the user name from the *encrypted* response and the client's DER chain (or None) reach after_authentication; the decrypted replies equal, message for message, the same conversation run in plaintext (differential); the client never hangs. TLS requested but not offered => Err and after_authentication never called. One case in six has the shim refuse the client inside the session: run_on returns the shim's error, the ERR travels encrypted with the id after the encrypted response's, and everything matches the plaintext run. Non-trivial = some read() returned bytes from both sides of the SSLRequest / ClientHello boundary (measured from the operation log).".into()
+        "cases = configuration {TLS offered?, server asks for a client certificate?, client has a certificate?, TLS 1.2 / 1.3} x a C03-style conversation (lock-step or pipelined; 1 in 8 with one reply of 600-5000 small rows, i.e. 60-500 KB of TLS records) x a chunk schedule over the whole client stream. The client is a rustls ClientConnection embedded in the scripted transport: it writes the SSLRequest packet (4.1 layout, reserved bytes zero or random; one in eight in the pre-4.1 layout with a 16-bit mask and a user name, then half of the time followed by a pre-4.1 encrypted response) and the ClientHello back-to-back (as real clients do), later flights as rustls produces them (the ClientHello optionally enlarged to 4-16 KiB by a long ALPN list, as session tickets and post-quantum key shares do), the HandshakeResponse (sequence id 2) and the commands inside the TLS session. Schedule classes: cut k bytes into the SSLRequest; SSLRequest + first k bytes of the ClientHello in one read; everything in one read; 1-byte reads; exact SSLRequest; mixed. Enumerated: a 17 MB query answered by a 17 MB row inside the TLS session (thorough: also 2^24-2 and 2*(2^24-1)+5 bytes), lock-step and pipelined. Oracle: run_on = Ok; every server byte after the greeting parses as TLS records and is accepted by rustls; the user name from the *encrypted* response and the client's DER chain (or None) reach after_authentication; the decrypted replies equal, message for message, the same conversation run in plaintext (differential); the client never hangs. TLS requested but not offered => Err and after_authentication never called. One case in four writes another record-layer version (3.0, 3.2, 3.3) into the ClientHello's record header than rustls' 3.1. One case in six has the shim refuse the client inside the session: run_on returns the shim's error, the ERR travels encrypted with the id after the encrypted response's, and everything matches the plaintext run. Non-trivial = some read() returned bytes from both sides of the SSLRequest / ClientHello boundary (measured from the operation log).".into()
     }
     fn assumptions(&self) -> Vec<String> {
         vec![
@@ -161,7 +164,7 @@ impl Prop for C18 {
             1 => g.usize_in(3600, 4200),
             _ => *g.pick(&[1000usize, 3800, 3900, 4000, 4100, 6000, 8000, 12_000, 15_000]),
         };
-        Case { conv, tls_offered: g.chance(5, 6), server_asks_client_cert: g.coin(), client_cert: g.coin(), tls13: g.coin(), alpn_pad, sslreq_320_user }
+        Case { conv, tls_offered: g.chance(5, 6), server_asks_client_cert: g.coin(), client_cert: g.coin(), tls13: g.coin(), alpn_pad, sslreq_320_user, hello_record_minor: if g.chance(1, 4) { Some(*g.pick(&[3u8, 0, 2, 3])) } else { None } }
     }
     fn fixed(&self, tier: Tier) -> Vec<Case> {
         // messages longer than a wire packet in both directions inside the TLS session (a 17 MB
@@ -189,7 +192,7 @@ impl Prop for C18 {
                 };
                 conv.lockstep = lockstep;
                 conv.sched = Schedule { sizes: vec![36 + 100, 16_384, 1 << 20], hot: vec![], big: 0, write_accept: vec![] };
-                v.push(Case { conv, tls_offered: true, server_asks_client_cert: false, client_cert: false, tls13: i % 2 == 0, alpn_pad: 0, sslreq_320_user: None });
+                v.push(Case { conv, tls_offered: true, server_asks_client_cert: false, client_cert: false, tls13: i % 2 == 0, alpn_pad: 0, sslreq_320_user: None, hello_record_minor: None });
             }
         }
         v
@@ -230,7 +233,11 @@ impl Prop for C18 {
             messages.push(m);
             kinds.push(sc.cmd.reply_kind());
         }
-        let (peer, log) = TlsClientPeer::new(client_config(case.tls13, case.client_cert, case.alpn_pad), ssl_req, messages, kinds.clone(), c.lockstep);
+        let (mut peer, log) = TlsClientPeer::new(client_config(case.tls13, case.client_cert, case.alpn_pad), ssl_req, messages, kinds.clone(), c.lockstep);
+        peer.hello_record_minor = case.hello_record_minor;
+        if let Some(m) = case.hello_record_minor {
+            ex.class(format!("client-hello-record-version-3.{}", m));
+        }
         let tr = Transport::new(Vec::new(), c.sched.clone(), Fault::None);
         tr.0.borrow_mut().peer = Some(Box::new(peer));
         let o = run_raw_tls(c, tr, server_cfg);
